@@ -1,5 +1,10 @@
 """C17 — Vine pair-copula data flow, likelihood and sampling are coherent.
 
+Tie (T): tools/gen_vineflow.py regenerates lean/CopVerif/Gen/VineFlowGen.lean from the AST of tree.py / vine.py (index
+expressions, branch conditions, set operations, operand order of the pair-copula calls, the 0/1 correction; loops pinned) and
+Props/C17c.lean proves generated = hand model for all inputs and re-states the C17 theorems (both recorded findings included)
+over the generated definitions.  The driver keeps answering from the hand model, so (K) below survives a broken translation.
+
 Tie (K, plan terms): every generated table is fitted by the REAL `VineCopula` (three types, truncation
 1..d) with `copulas.bivariate.select_copula` wrapped (this process only) to log its inputs.  The
 structure (per tree: index, L, R, D, parent positions) is sent to the Lean driver
@@ -1233,7 +1238,7 @@ def vine_signature(v, u, seed):
                      for e in tr.edges] for tr in v.trees]
     sig['u_matrix'] = vc.f2h(float(np.sum(np.asarray(v.u_matrix)))) + str(np.asarray(v.u_matrix).shape)
     sig['edge.U'] = [[vc.f2h(float(np.sum(np.asarray(e.U)))) for e in tr.edges] for tr in v.trees]
-    lk = real_lik(v, u, SENTINELS[0])
+    lk = real_lik(v, u, SENTINELS[0], SENTINELS[0])
     sig['get_likelihood(u) with np.empty filled'] = lk if isinstance(lk, str) else vc.f2h(lk)
     try:
         v.set_random_state(seed)
